@@ -276,13 +276,17 @@ def evaluate(ctx, case):
     common.decoy(path, "gro")
     residues = case["residues"]
     ops = _fix_iter_ops(case["ops"])
+    # one positions-only file in five is written in the high-precision layout %16.11f (68 columns, the length of a
+    # %8.3f line WITH velocities, which the decoy loaded a moment ago has)
+    wide = (not case["vel"]) and case["coordseed"] % 5 == 0 and case["cls"] != "beyond-100000-atoms"
+    ctx.count("layout:" + ("%16.11f" if wide else "%8.3f"))
     if case.get("box"):
-        G.write_gro(path, case["title"], residues, case["coordseed"], case["vel"], box=tuple(case["box"]))
+        G.write_gro(path, case["title"], residues, case["coordseed"], case["vel"], box=tuple(case["box"]), wide=wide)
         ctx.count("box:triclinic")
     else:
-        G.write_gro(path, case["title"], residues, case["coordseed"], case["vel"])
+        G.write_gro(path, case["title"], residues, case["coordseed"], case["vel"], wide=wide)
         ctx.count("box:rectangular")
-    raw = G.parse_gro_raw(path)
+    raw = G.parse_gro_raw(path, width=16 if wide else 8)
     file_bytes = open(path, "rb").read()
     atoms = raw["atoms"]
     runs = G.runs_of(atoms)
